@@ -106,6 +106,9 @@ type G struct {
 
 	// RTPoints: after how many commits a genesis round trip is taken (genesis family sampling).
 	rtAt map[int]bool
+	// paramFromGov records which parameters were (re)set by a governance message of this history
+	// (otherwise the value in force comes from genesis).
+	paramFromGov map[string]bool
 	// badPct is the percentage of deliberately invalid variants in the random op streams.
 	badPct int
 }
@@ -133,7 +136,7 @@ func NewG(c Cfg, opts chain.Options) *G {
 		id += "(" + c.Sub + ")"
 	}
 	rec := chain.NewRecorder(id, c.Seed, opts)
-	g := &G{Family: c.Family, N: c.N, Seed: c.Seed, Tier: c.Tier, R: common.NewRng(c.Seed), Rec: rec, App: rec.App, Stats: newStats(), badPct: 22}
+	g := &G{Family: c.Family, N: c.N, Seed: c.Seed, Tier: c.Tier, R: common.NewRng(c.Seed), Rec: rec, App: rec.App, Stats: newStats(), badPct: 22, paramFromGov: map[string]bool{}}
 	g.Chk = monitor.NewChecker(rec.Trace, traceFileName(c.Family, c.N), c.Family)
 	g.now = rec.App.Options().GenesisTime
 	if c.RTPoints > 0 {
